@@ -6,7 +6,7 @@ import TapkeeVerif.Model.Landmarks
 Line-protocol driver for the landmark model (C11, DESIGN §11).  All arithmetic is exact (`Rat`).
 
   sel n=16 r=3:-4 perm=11,8,5,..            -> sel count=<compiled count> exact=<⌊N·r⌋> lm=<prefix>     | sel ERR:ub
-  tri n=6 d=2 lm=4,1,3 dist=.. V=.. lam=.. mu=..   -> tri Y=<n x d>   (same text as the harness prints)  | tri ERR:div0
+  tri n=6 d=2 lm=4,1,3 dist=.. V=.. lam=.. mu=..   -> tri Y=<n x d>   (same text as the harness prints)
   sweep num=3 lo=1 hi=100000                -> sweep bad=<N:count,..> exactbad=<how many N have ⌊N·fl(num/N)⌋ ≠ num>:<first few>
   chk kind=lmds n= d= lm= dist= [pts=] B= V= lam= s= Y=      -> verdict tokens (see `chkLmds`)
   chk kind=lisomap n= d= lm= G= B= V= lam= q= Y= dense=1|0     -> verdict tokens (see `chkLisomap`)
@@ -86,6 +86,8 @@ def errLog (err scale : Rat) : Nat :=
     | f + 1, t => if scale ≤ t then 99 - (f + 1) else go f (t * 2)
   go 99 err
 
+/-- machine epsilon of `double` (`std::numeric_limits<double>::epsilon()`) -/
+def epsD : Rat := pow2 (-52)
 def tol30 : Rat := pow2 (-30)
 def tol40 : Rat := pow2 (-40)
 
@@ -137,10 +139,7 @@ def answerTri (fs : List (String × String)) : String :=
     match lmFun? n nl lml, field? fs "dist" >>= parseMat n n, field? fs "V" >>= parseMat nl d,
           field? fs "lam" >>= parseVec d, field? fs "mu" >>= parseVec nl with
     | some lm, some dist, some V, some lam, some mu =>
-      match triangulateD dist lm mu V lam with
-      | .error .divZero => "tri ERR:div0"
-      | .error .oob => "tri ERR:oob"
-      | .ok Y => "tri Y=" ++ showMat Y
+      "tri Y=" ++ showMat (triangulateD epsD dist lm mu V lam)
     | _, _, _, _, _ => "bad-case"
   | _, _, _ => "bad-case"
 
@@ -170,8 +169,11 @@ def condOf {d : Nat} (lam : DVec d Rat) : Rat :=
   | [] => 1
   | x :: xs =>
     let mx := xs.foldl maxR x
-    let mn := xs.foldl minR x
-    if mn ≤ 0 then pow2 20 else minR (mx / mn) (pow2 20)
+    -- eigenvalues the pseudo-inverse keeps (far above the tolerance); the others contribute zero coordinates
+    let kept := l.filter fun v => pow2 (-40) * mx < v
+    match kept with
+    | [] => 1
+    | y :: ys => minR (mx / ys.foldl minR y) (pow2 20)
 
 /-- pairwise squared distances of the (finite) embedding against the exact squared distances of the points -/
 def distVerdict (n : Nat) (Y : List (List (Option Rat))) (pts : List (List Rat)) (cond : Rat) : String :=
@@ -219,37 +221,25 @@ def chkLmds (fs : List (String × String)) : String :=
       let Bm := lmdsBD dist lm
       -- oob: the model says d > n_l reads outside the eigenvector matrix
       if d > nl then s!"{distinct} model=ERR:oob{rankTok}" else
-      -- `sqrt` of a negative eigenvalue: no value meets the contract `s² = lam`; the code continues with NaN
-      match field? fs "s" >>= parseVecNF d, field? fs "lam" >>= parseVec d, field? fs "Y" >>= parseMatNF n d with
-      | some sNF, some lam, some Y =>
-        if sNF.any Option.isNone then
-          let consistent := (List.zip sNF lam.data.toList).all fun (si, li) => si.isSome || decide (li < 0)
-          let pre := match field? fs "B" >>= parseMat nl nl with
-            | some Bi => (cmpMat Bi Bm (tol30 * maxR 1 (maxAbs Bm))).1
-            | none => "bad-case"
-          let post := match finiteMat? n d Y with | none => "nonfinite" | some _ => "finite"
-          s!"{distinct} model=ERR:sqrtneg pre={pre} sqrt={if consistent then "ok" else "bad"} eig=na post={post}{rankTok}"
-        else
       (match field? fs "B" >>= parseMat nl nl, field? fs "V" >>= parseMat nl d, field? fs "lam" >>= parseVec d,
             field? fs "s" >>= parseVec d, field? fs "Y" >>= parseMatNF n d with
       | some Bi, some V, some lam, some s, some Y =>
         let scaleB := maxR 1 (maxAbs Bm)
         let (pre, _) := cmpMat Bi Bm (tol30 * scaleB)
-        let sqrtOk := (List.finRange d).all fun i => absR (s.get i * s.get i - lam.get i) ≤ tol40 * absR (lam.get i)
+        let sqrtOk := (List.finRange d).all fun i =>
+          absR (s.get i * s.get i - clamp0 (lam.get i)) ≤ tol40 * absR (lam.get i)
         let eig := eigVerdict Bi V lam
         let (model, post) :=
-          match lmdsEmbedD dist lm V lam s with
+          match lmdsEmbedD epsD dist lm V lam s with
           | .error .oob => ("ERR:oob", "na")
-          | .error .divZero => ("ERR:div0", match finiteMat? n d Y with | none => "nonfinite" | some _ => "finite")
           | .ok Ym =>
             match finiteMat? n d Y with
             | none => ("ok", "nonfinite")
             | some Yi =>
-              -- tolerance relative to the size of the terms that are summed (cancellation-safe)
-              let W := DMat.ofFn (divCols (post V.get s.get) lam.get)
-              let mu := lmdsMuD dist lm
               -- the implementation's δ² − μ carries rounding of the size of the largest δ² / μ, also where the exact
               -- difference vanishes: the scale of the summed terms is Σ_a |W a i| · scaleD
+              let W := DMat.ofFn (pinvCols (eigTol nl epsD lam.get) (post V.get s.get) lam.get)
+              let mu := lmdsMuD dist lm
               let scaleD := (List.finRange n).foldl (fun acc x => (List.finRange nl).foldl (fun acc a =>
                   maxR acc (maxR (absR (dist.get x (lm a) * dist.get x (lm a))) (absR (mu.get a)))) acc) 1
               let termScale := (List.finRange d).foldl (fun acc i =>
@@ -260,7 +250,6 @@ def chkLmds (fs : List (String × String)) : String :=
           | none => ""
         s!"{distinct} model={model} pre={pre} sqrt={if sqrtOk then "ok" else "bad"} {eig} post={post}{rankTok}{distTok}"
       | _, _, _, _, _ => "bad-case:obs")
-      | _, _, _ => "bad-case:obs0"
     | _, _ => "bad-case:lm"
   | _, _, _ => "bad-case"
 
@@ -274,14 +263,9 @@ def chkLisomap (fs : List (String × String)) : String :=
     | some G =>
       let Bm := lisomapPreD G
       if d > nl then "model=ERR:oob" else
-      match field? fs "q" >>= parseVecNF d, field? fs "lam" >>= parseVec d, field? fs "Y" >>= parseMatNF n d with
-      | some qNF, some lam, some Y =>
-        if qNF.any Option.isNone then
-          let consistent := (List.zip qNF lam.data.toList).all fun (qi, li) => qi.isSome || decide (li < 0)
-          let post := match finiteMat? n d Y with | none => "nonfinite" | some _ => "finite"
-          s!"model=ERR:sqrtneg pre=na root={if consistent then "ok" else "bad"} eig=na post={post}"
-        else
-      (match field? fs "V" >>= parseMat nl d, field? fs "lam" >>= parseVec d, field? fs "q" >>= parseVec d,
+      -- `sqrt(sqrt(lam))` of a (noise-)negative eigenvalue is NaN; the guard never uses it: read it as 1
+      match field? fs "V" >>= parseMat nl d, field? fs "lam" >>= parseVec d,
+            (field? fs "q" >>= parseVecNF d).map (fun l => (⟨(l.map fun o => o.getD 1).toArray⟩ : DVec d Rat)),
             field? fs "Y" >>= parseMatNF n d with
       | some V, some lam, some q, some Y =>
         let pre :=
@@ -293,17 +277,17 @@ def chkLisomap (fs : List (String × String)) : String :=
             match field? fs "B" >>= parseMat nl n with
             | some Bi => (cmpMat Bi Bm (tol30 * maxR 1 (maxAbs Bm))).1
             | none => "bad-case"
-        let qOk := (List.finRange d).all fun i =>
-          absR (q.get i * q.get i * q.get i * q.get i - lam.get i) ≤ tol40 * 4 * absR (lam.get i)
+        let tolL := eigTol nl epsD lam.get
+        let qOk := (List.finRange d).all fun i => lam.get i ≤ tolL ||
+          decide (absR (q.get i * q.get i * q.get i * q.get i - lam.get i) ≤ tol40 * 4 * absR (lam.get i))
         let eig := if dense then
             match field? fs "B" >>= parseMat nl nl with
             | some Bi => eigVerdict Bi V lam
             | none => "eig=na"
           else "eig=na"
         let (model, post) :=
-          match lisomapPostD Bm V q with
+          match lisomapPostD epsD Bm V lam q with
           | .error .oob => ("ERR:oob", "na")
-          | .error .divZero => ("ERR:div0", match finiteMat? n d Y with | none => "nonfinite" | some _ => "finite")
           | .ok Ym =>
             match finiteMat? n d Y with
             | none => ("ok", "nonfinite")
@@ -311,11 +295,11 @@ def chkLisomap (fs : List (String × String)) : String :=
               -- likewise the implementation's B carries rounding of the size of its largest entry everywhere
               let scaleB := maxR 1 (maxAbs Bm)
               let termScale := (List.finRange d).foldl (fun acc i =>
-                  maxR acc ((sumFin nl fun a => absR (V.get a i)) * scaleB / absR (q.get i))) (maxR 1 (maxAbs Ym))
+                  if lam.get i ≤ tolL then acc
+                  else maxR acc ((sumFin nl fun a => absR (V.get a i)) * scaleB / absR (q.get i))) (maxR 1 (maxAbs Ym))
               ("ok", (cmpMat Yi Ym (tol30 * termScale)).1)
         s!"model={model} pre={pre} root={if qOk then "ok" else "bad"} {eig} post={post}"
-      | _, _, _, _ => "bad-case:obs")
-      | _, _, _ => "bad-case:obs0"
+      | _, _, _, _ => "bad-case:obs"
     | none => "bad-case:G"
   | _, _, _ => "bad-case"
 
